@@ -36,7 +36,10 @@ MUTATIONS = [
      "                    not fn.endswith('.lua')):", 'no-failing-input-found'),   # from_file refuses the .lua: still fails
     ('C13', 'harmless-loop-order', 'pico8/build/build.py',
      "for section in ('lua', 'gfx', 'gff', 'map', 'sfx', 'music'):",
-     "for section in ('gfx', 'lua', 'gff', 'map', 'sfx', 'music'):", 'no-failing-input-found'),
+     "for section in ('gfx', 'lua', 'gff', 'map', 'sfx', 'music'):", 'green'),   # the theorem holds for any order
+    ('C13', 'section-dropped-from-loop', 'pico8/build/build.py',
+     "for section in ('lua', 'gfx', 'gff', 'map', 'sfx', 'music'):",
+     "for section in ('lua', 'gfx', 'gff', 'map', 'sfx'):", 'red'),
     ('C11', 'direct-write-to-destination', 'pico8/game/file.py',
      "    with tempfile.TemporaryFile(**file_args) as outfh:",
      "    with open(filename, **file_args) as outfh:", 'red'),
@@ -49,6 +52,9 @@ MUTATIONS = [
     ('C11', 'overwrite-via-named-temp-and-rename-early', 'pico8/game/file.py',
      "        fmt.to_file(game, outfh, filename=filename, *args, **kwargs)",
      "        open(filename, 'ab').close()\n        fmt.to_file(game, outfh, filename=filename, *args, **kwargs)", 'red'),
+    ('C11', 'truncate-through-os-open-unseen-by-wrappers', 'pico8/game/file.py',
+     "        fmt.to_file(game, outfh, filename=filename, *args, **kwargs)",
+     "        os.close(os.open(filename, os.O_WRONLY | os.O_CREAT | os.O_TRUNC))\n        fmt.to_file(game, outfh, filename=filename, *args, **kwargs)", 'red'),
     ('C11', 'sanity-check-after-sections', 'pico8/game/formatter/p8.py',
      "        outstr.write(b'__lua__\\n')\n        ended_in_newline = None",
      "        outstr.write(b'__lua__\\n')\n        ended_in_newline = None  # harmless reorder marker", 'green'),
